@@ -79,6 +79,10 @@ def extract_ops(ctx):
         others = o.get("select_others") or []
         if o.get("select_default"):
             bad("%s %s in %s has a default clause" % (o["kind"], o["chan"], o["func"]))
+        if others == ["recv:closed"] and o["func"] in ("readLoop", "writeLoop", "readHandle", "pollMessageHandler", "write", "sendErrConnack"):
+            # `closed` is closed by internalClose AFTER serve has joined the connection's goroutines: for an operation of one
+            # of these goroutines (or of a caller they block on) that clause can never fire: the operation is not guarded
+            return False
         if others not in ([], ["recv:close"]):
             bad("%s %s in %s selects with %s" % (o["kind"], o["chan"], o["func"], others))
         return bool(o["guard_close"])
@@ -135,7 +139,7 @@ def extract_ops(ctx):
     m["seterror_offer_in_once"] = len(offer) > 0
     # the `<-client.close` clause that guards one of the operations above
     for o in ops:
-        if o["kind"] == "recv" and o["chan"] == "close" and o["select"] and len(o.get("select_others") or []) == 1 and not o.get("select_default"):
+        if o["kind"] == "recv" and o["chan"] in ("close", "closed") and o["select"] and len(o.get("select_others") or []) == 1 and not o.get("select_default"):
             k2, ch2 = o["select_others"][0].split(":")
             if any(f == o["func"] and k == k2 and c == ch2 for (f, k, c, _) in known):
                 known.add((o["func"], o["kind"], o["chan"], o["line"]))
@@ -185,8 +189,9 @@ def pack(name, first=("connect",), rest=(), v5=(), props=None, deadlock=True, **
 # The stuck state behind each recorded finding, as a state predicate of the FAITHFUL model (no deviation).  TLC's shortest
 # behaviour reaching it is the script that must reproduce it on the real broker.
 TARGETS = {
+    # (not through the handshake timer: the real socket is closed right after it, nothing sent later reaches `in`)
     "in_send_unguarded":
-        '\\E k \\in K : pc[10*k+1] = "r3" /\\ Len(inq[k]) = CapIn /\\ spawnPH[k] # "pending" /\\ "handle" \\notin live[k]',
+        '\\E k \\in K : pc[10*k+1] = "r3" /\\ Len(inq[k]) = CapIn /\\ spawnPH[k] # "pending" /\\ "handle" \\notin live[k] /\\ hp[10*k+3] # "timeout"',
     "seterror_blocks_in_once":
         '\\E k \\in K : \\E p \\in ProcSet : pc[p] = "se1" /\\ c[p] = k /\\ Len(outq[k]) = CapOut /\\ ~closeCh[k] /\\ pc[10*k+2] = "w2" '
         '/\\ ~srvClosed[k] /\\ ~peerClosed[k] /\\ ~peerReading[k] /\\ s2c[k] >= CapSock',
@@ -312,6 +317,7 @@ def ce_to_scenario(ce, pk, sid):
         conns.append(spec)
     steps = []
     dead = [False] * n          # nothing consumes `in` any more (handshake failed / readHandle returned)
+    killer = [None] * n         # the step that made it so
     # a handshake that times out has consumed nothing: whatever the peer had sent before the timer fired is, for the broker,
     # the same as sent afterwards -- the script waits out the 5 s timer right after the TCP connect
     times_out = [any(st["hp"][str(10 * (k + 1) + 3)] == "timeout" for st in ce) for k in range(n)]
@@ -335,10 +341,16 @@ def ce_to_scenario(ce, pk, sid):
                 if dead[k]:
                     # nothing consumes client.in: any packet is a filler, REAL_CAP/CapIn of them per packet of the model
                     st = {"op": "send", "k": k + 1, "kind": "ping", "n": amp, "nowait": True, "stands_for": kind}
+                    if killer[k] is not None and not times_out[k]:
+                        # ... pipelined behind the packet that made the broker stop consuming (same write: they are in the
+                        # socket before the broker can close it); the separate sends stay, for the case that it does not
+                        killer[k]["tail"] = killer[k].get("tail", 0) + amp
                 steps.append(st)
                 if kind == "connect" and not c["PeerReads"] and not dead[k]:
                     steps.append({"op": "flood", "k": k + 1})      # what the model's CapSock/CapOut stand for
                 if kind in ("bad", "mal", "disc", "badconnect"):
+                    if not dead[k]:
+                        killer[k] = st
                     dead[k] = True
             if a["peerReading"][k] and not b["peerReading"][k]:
                 conns[k]["smallbuf"] = True
